@@ -63,6 +63,9 @@ type vxHR struct {
 	registerOK   bool
 	regAuthOK    bool
 	revLeaseOK   bool
+	revLeaseNS   string // namespace in the context handed to the revocation-lease lookup
+	lazyRevokeNS string // ... and to the lazy revocation
+	childReq     bool   // the request runs in child namespace n1 with a token of the root namespace
 	lazyRevokeOK bool
 	mountNil     bool
 
@@ -175,7 +178,12 @@ func vxFilterList(c *Core, ctx context.Context, req *logical.Request, unauth boo
 	return nil
 }
 
+var vxHChildNS = &namespace.Namespace{ID: "n1", Path: "n1/"}
+
 func vxNamespaceByID(c *Core, ctx context.Context, id string) (*namespace.Namespace, error) {
+	if id == "n1" {
+		return vxHChildNS, nil
+	}
 	return namespace.RootNamespace, nil
 }
 
@@ -183,7 +191,7 @@ func vxFetchEntity(c *Core, ctx context.Context, ns *namespace.Namespace, entity
 	return nil, map[string][]string{}, nil
 }
 
-func vxInFlight(c *Core, reqID, clientID string)       {}
+func vxInFlight(c *Core, reqID, clientID string)          {}
 func vxMetricSink(c *Core) *metricsutil.ClusterMetricSink { return &metricsutil.ClusterMetricSink{} }
 
 func vxRegisterLease(m *ExpirationManager, ctx context.Context, req *logical.Request, resp *logical.Response, role string) (string, error) {
@@ -204,6 +212,9 @@ func vxRegisterAuth(m *ExpirationManager, ctx context.Context, te *logical.Token
 
 func vxRevocationLease(m *ExpirationManager, ctx context.Context, te *logical.TokenEntry) (string, error) {
 	vxEv("revocation-lease")
+	if ns, err := namespace.FromContext(ctx); err == nil {
+		vxH.revLeaseNS = ns.ID
+	}
 	if !vxH.revLeaseOK {
 		return "", vxErr("cannot create revocation lease")
 	}
@@ -212,6 +223,9 @@ func vxRevocationLease(m *ExpirationManager, ctx context.Context, te *logical.To
 
 func vxLazyRevoke(m *ExpirationManager, ctx context.Context, leaseID string) error {
 	vxEv("lazy-revoke")
+	if ns, err := namespace.FromContext(ctx); err == nil {
+		vxH.lazyRevokeNS = ns.ID
+	}
 	vxH.lazyRevoke++
 	if !vxH.lazyRevokeOK {
 		return vxErr("revocation failed")
@@ -232,6 +246,10 @@ func vxCarriesBackendData(resp *logical.Response) bool {
 
 func VxHandleRequest() {
 	ctx := namespace.RootContext(context.Background())
+	childReq := vxBool("request runs in a child namespace with a token of the parent namespace")
+	if childReq {
+		ctx = namespace.ContextWithNamespace(context.Background(), vxHChildNS)
+	}
 	c := &Core{router: &routing.Router{}, logger: vxHLogger{}, tokenStore: &TokenStore{}, expiration: &ExpirationManager{}, auditBroker: &AuditBroker{}}
 	vxH = &vxHR{
 		ctOutcome: vxChoose("token check outcome", 6), hasTE: vxBool("token entry found"), useOutcome: vxChoose("use-token outcome", 4),
@@ -297,6 +315,14 @@ func VxHandleRequest() {
 	if teSeen && !forwarded && vxH.useOutcome == 3 {
 		vxReach("handle: last use")
 		vxAssert("the last use triggers the token's revocation", vxH.revLeaseOK == (vxH.lazyRevoke == 1))
+		if childReq {
+			vxReach("handle: last use in a namespace other than the token's")
+		}
+		// the token (and its lease) belong to the ROOT namespace in this harness, wherever the request runs
+		vxAssert("the token's revocation lease is looked up in the TOKEN's namespace", vxH.revLeaseNS == namespace.RootNamespaceID)
+		if vxH.lazyRevoke == 1 {
+			vxAssert("the token's lease is expired in the TOKEN's namespace (where it lives), not the request's", vxH.lazyRevokeNS == namespace.RootNamespaceID)
+		}
 		if !vxH.revLeaseOK || !vxH.lazyRevokeOK {
 			vxAssert("if the revocation cannot be queued the request fails without a response", resp == nil && err != nil)
 		}
